@@ -9,7 +9,9 @@ Definition py_or (a b : expr) : expr := Or [a; b].
 Definition py_invert (a : expr) : expr := Not a.
 Definition py_evaluate_safe (e : expr) (rho : valuation) : bool := evaluate e rho.
 
-Inductive pyexc := RuntimeError | KeyError | TypeError | EOFError | OSError.
+(* PanicException: what PyO3 raises for a Rust panic (a BaseException of the module pyo3_runtime);
+   the interpreter goes on *)
+Inductive pyexc := RuntimeError | KeyError | TypeError | EOFError | OSError | PanicException.
 
 Definition py_evaluate_checked (e : expr) (rho : valuation) : bool + pyexc :=
   match eval_checked e rho with inl b => inl b | inr _ => inr KeyError end.
